@@ -1015,18 +1015,8 @@ func (multi *MultiEpoch) processSlotTransactions(
 		}
 		klog.V(3).Infof("Error check completed in %s", time.Since(errCheckStartTime))
 
-		// If we got here with no transactions (buffer is empty), send an empty response
-		if len(buffer.items) == 0 {
-			klog.V(2).Infof("No transactions found for the requested accounts, sending empty response")
-			emptyResp := &old_faithful_grpc.TransactionResponse{
-				Slot: startSlot,
-				// Include other required fields as needed
-			}
-			if err := ser.Send(emptyResp); err != nil {
-				return err
-			}
-		}
-
+		// Nothing else to send: when no transaction matched, the stream simply ends without a message
+		// (as it does when the blocks are scanned).
 		return nil
 	}
 }
